@@ -303,7 +303,7 @@ pub fn sweep_configs() -> Vec<Timing> {
 pub fn c03(run: &mut Run) {
     run.assume("domain bound: total duration and t - delay must be finite f32 quantities (cases outside are counted as outside_domain_skipped)");
     run.assume("outside the exact domain the position is accepted within the per-case band ulp(t-delay)/cycle + 4*2^-24, either one-sided limit at a cycle wrap");
-    let cases = run.tier.pick(300_000, 10_000_000);
+    let cases = run.tier.pick(1_000_000, 10_000_000);
     run.prop(
         "c03_random",
         "proptest: (cycle, delay incl. negative, repeat incl. 2^24+-1 and u32::MAX, reverse) x 16 TimeSpecs (exact fractions of cycles, +-2 ulp around every phase boundary, keyframe-free far times); oracle: f64 phase model (equality in the exact domain, band otherwise), position in [0,1], metadata == configuration, duration consistent with the first terminal time, linear probe through Timeline::update == position, periodicity and mirror symmetry on exact grids; non-trivial = Active with 0<pos<1 or a boundary time",
